@@ -31,6 +31,8 @@ func init() {
 			{ID: "C13.6", Desc: "otherwise the failure is returned", Run: ruleC13_6, MinSites: 2},
 			{ID: "C13.10", Desc: "a stale-if-error value too large to represent saturates instead of being ignored", Run: func(c *Ctx) { ruleSaturation(c, "C13.10") }, MinSites: 2},
 			{ID: "C13.11", Desc: "the freshness record used for the stale-if-error window is the stored response's own (never the made-up record of a request max-age=0)", Run: func(c *Ctx) { ruleC11_2(c); renameRule(c, "C11.2", "C13.11") }, MinSites: 1},
+			{ID: "C13.12", Desc: "every origin exchange of the hit path ends in the validation handler", Run: func(c *Ctx) { ruleHitNeverRefetchesAsMiss(c, "C13.12") }, MinSites: 1},
+			{ID: "C13.13", Desc: "a signed stale-if-error value opens no window", Run: func(c *Ctx) { ruleDeltaSecondsUnsigned(c, "C13.13") }, MinSites: 1},
 		},
 	})
 }
